@@ -182,6 +182,10 @@ def generate(rng, tier):
         cs += entry_point_cases(rng, exp, role, tier)
         cs += read_cases(rng, exp, role, tier)
         cs += write_cases(rng, exp, role, tier)
+    # all entry points on ONE object in random order, with injected read/write failures: every op's result and the state afterwards
+    # (probe) must be those of the raw operation sequence
+    import hdr_mix
+    cs += hdr_mix.cases(rng, Case, [("v", "s"), ("t", "s"), ("w", "s"), ("w", "c")], 60 if tier == "quick" else 2000, 100, faults=0.2, special_key=special_key)
     return cs
 
 def nontrivial(case, out):
